@@ -75,9 +75,10 @@ pub trait Engine: Sync {
     fn chunk(&self) -> u64 {
         50
     }
-    /// wall-clock budget for one chunk before the watchdog kills the worker
-    fn chunk_timeout(&self) -> Duration {
-        Duration::from_secs(300)
+    /// wall-clock watchdog: a worker that reports no progress for this long is killed and the
+    /// run it was executing is recorded as hung (confirmed by replay in a fresh process)
+    fn run_timeout(&self) -> Duration {
+        Duration::from_secs(20)
     }
     fn plan(&self, seed: u64, run: u64, tier: Tier) -> Value;
     fn execute(&self, plan: &Value) -> RunReport;
@@ -174,85 +175,118 @@ pub fn worker_main(e: &dyn Engine, seed: u64, from: u64, to: u64, tier: Tier) {
 
 struct ChunkResult {
     lines: Vec<WorkerLine>,
-    hung_run: Option<u64>,
+    hung_runs: Vec<u64>,
     crashed_run: Option<(u64, String)>,
 }
 
+/// kill the child when the parent dies (no orphans when a check is interrupted)
+fn die_with_parent(cmd: &mut Command) {
+    use std::os::unix::process::CommandExt;
+    unsafe {
+        cmd.pre_exec(|| {
+            libc::prctl(libc::PR_SET_PDEATHSIG, libc::SIGKILL);
+            Ok(())
+        });
+    }
+}
+
+pub static ABORT: std::sync::atomic::AtomicBool = std::sync::atomic::AtomicBool::new(false);
+static HANGS: std::sync::atomic::AtomicUsize = std::sync::atomic::AtomicUsize::new(0);
+
+/// Run [from, to) in worker processes. A run that makes no progress for `stall` is killed and
+/// recorded as hung (watchdog); the chunk then continues after it in a new process.
 fn run_chunk(e: &dyn Engine, seed: u64, from: u64, to: u64, tier: Tier) -> ChunkResult {
-    let exe = std::env::current_exe().unwrap();
-    let mut child = Command::new(exe)
-        .arg("worker")
-        .arg(e.id())
-        .arg(seed.to_string())
-        .arg(from.to_string())
-        .arg(to.to_string())
-        .arg(tier.name())
-        .stdin(Stdio::null())
-        .stdout(Stdio::piped())
-        .stderr(Stdio::piped())
-        .spawn()
-        .expect("spawn worker");
-    let stdout = child.stdout.take().unwrap();
-    let stderr = child.stderr.take().unwrap();
-    let (tx, rx) = std::sync::mpsc::channel::<String>();
-    let t = std::thread::spawn(move || {
-        for l in BufReader::new(stdout).lines().map_while(Result::ok) {
-            if tx.send(l).is_err() {
-                break;
-            }
+    let mut res = ChunkResult { lines: Vec::new(), hung_runs: Vec::new(), crashed_run: None };
+    let mut cur = from;
+    while cur < to {
+        if ABORT.load(std::sync::atomic::Ordering::Relaxed) {
+            break;
         }
-    });
-    let terr = std::thread::spawn(move || {
-        let mut s = String::new();
-        for l in BufReader::new(stderr).lines().map_while(Result::ok) {
-            if s.len() < 4000 {
-                s.push_str(&l);
-                s.push('\n');
-            }
-        }
-        s
-    });
-    let deadline = Instant::now() + e.chunk_timeout();
-    let mut lines = Vec::new();
-    let mut last_started: Option<u64> = None;
-    let mut hung = None;
-    loop {
-        match rx.recv_timeout(Duration::from_millis(200)) {
-            Ok(l) => {
-                if let Ok(w) = serde_json::from_str::<WorkerLine>(&l) {
-                    if w.start {
-                        last_started = Some(w.run);
-                    } else {
-                        lines.push(w);
-                    }
-                }
-            }
-            Err(std::sync::mpsc::RecvTimeoutError::Timeout) => {
-                if Instant::now() > deadline {
-                    let _ = child.kill();
-                    hung = last_started;
+        let exe = std::env::current_exe().unwrap();
+        let mut cmd = Command::new(exe);
+        cmd.arg("worker")
+            .arg(e.id())
+            .arg(seed.to_string())
+            .arg(cur.to_string())
+            .arg(to.to_string())
+            .arg(tier.name())
+            .stdin(Stdio::null())
+            .stdout(Stdio::piped())
+            .stderr(Stdio::piped());
+        die_with_parent(&mut cmd);
+        let mut child = cmd.spawn().expect("spawn worker");
+        let stdout = child.stdout.take().unwrap();
+        let stderr = child.stderr.take().unwrap();
+        let (tx, rx) = std::sync::mpsc::channel::<String>();
+        let t = std::thread::spawn(move || {
+            for l in BufReader::new(stdout).lines().map_while(Result::ok) {
+                if tx.send(l).is_err() {
                     break;
                 }
             }
-            Err(std::sync::mpsc::RecvTimeoutError::Disconnected) => break,
+        });
+        let terr = std::thread::spawn(move || {
+            let mut s = String::new();
+            for l in BufReader::new(stderr).lines().map_while(Result::ok) {
+                if s.len() < 4000 {
+                    s.push_str(&l);
+                    s.push('\n');
+                }
+            }
+            s
+        });
+        let stall = e.run_timeout();
+        let mut last_progress = Instant::now();
+        let mut last_started: Option<u64> = None;
+        let mut done_here = 0u64;
+        let mut hung = None;
+        loop {
+            match rx.recv_timeout(Duration::from_millis(200)) {
+                Ok(l) => {
+                    last_progress = Instant::now();
+                    if let Ok(w) = serde_json::from_str::<WorkerLine>(&l) {
+                        if w.start {
+                            last_started = Some(w.run);
+                        } else {
+                            done_here += 1;
+                            res.lines.push(w);
+                        }
+                    }
+                }
+                Err(std::sync::mpsc::RecvTimeoutError::Timeout) => {
+                    if last_progress.elapsed() > stall {
+                        let _ = child.kill();
+                        hung = Some(last_started.unwrap_or(cur));
+                        break;
+                    }
+                }
+                Err(std::sync::mpsc::RecvTimeoutError::Disconnected) => break,
+            }
         }
-    }
-    let status = child.wait().ok();
-    let _ = t.join();
-    let err = terr.join().unwrap_or_default();
-    let mut crashed = None;
-    if hung.is_none() {
-        let done = lines.len() as u64;
-        if done < to - from {
+        let status = child.wait().ok();
+        let _ = t.join();
+        let err = terr.join().unwrap_or_default();
+        if let Some(h) = hung {
+            res.hung_runs.push(h);
+            if HANGS.fetch_add(1, std::sync::atomic::Ordering::Relaxed) + 1 >= 3 {
+                // enough evidence: stop burning the budget on a hanging build
+                ABORT.store(true, std::sync::atomic::Ordering::Relaxed);
+            }
+            cur = h + 1;
+            continue;
+        }
+        if cur + done_here < to {
             let code = status.map(|s| format!("{s}")).unwrap_or_default();
-            crashed = Some((last_started.unwrap_or(from), format!("worker ended early ({code}): {err}")));
+            let at = last_started.unwrap_or(cur);
+            if res.crashed_run.is_none() {
+                res.crashed_run = Some((at, format!("worker ended early ({code}): {err}")));
+            }
+            cur = at + 1;
+            continue;
         }
+        break;
     }
-    ChunkResult {
-        lines,
-        hung_run: hung,
-        crashed_run: crashed,
-    }
+    res
 }
 
 #[derive(Serialize, Deserialize, Clone, Debug)]
@@ -269,27 +303,37 @@ pub struct ReplayFile {
 
 /// run one plan in a fresh process; returns the report (None on harness failure / timeout)
 pub fn exec_fresh(prop: &str, plan: &Value, tmpdir: &Path, timeout: Duration) -> Result<RunReport, String> {
+    exec_fresh_p(prop, plan, tmpdir, timeout, None)
+}
+
+/// like exec_fresh; with `progress`, the child keeps the plan of the sub-case it is executing in
+/// that file (env VERIF_PROGRESS_FILE), so a hang inside a multi-case run can be pinned down
+pub fn exec_fresh_p(prop: &str, plan: &Value, tmpdir: &Path, timeout: Duration, progress: Option<&Path>) -> Result<RunReport, String> {
     std::fs::create_dir_all(tmpdir).ok();
     let name = format!("cand-{}-{:016x}.json", std::process::id(), fnv64(plan.to_string().as_bytes()));
     let path = tmpdir.join(name);
     std::fs::write(&path, json!({"property": prop, "plan": plan}).to_string()).map_err(|e| e.to_string())?;
     let exe = std::env::current_exe().unwrap();
-    let mut child = Command::new(exe)
-        .arg("exec")
-        .arg(&path)
-        .stdin(Stdio::null())
-        .stdout(Stdio::piped())
-        .stderr(Stdio::null())
-        .spawn()
-        .map_err(|e| e.to_string())?;
+    let mut cmd = Command::new(exe);
+    cmd.arg("exec").arg(&path).stdin(Stdio::null()).stdout(Stdio::piped()).stderr(Stdio::null());
+    if let Some(p) = progress {
+        cmd.env("VERIF_PROGRESS_FILE", p);
+    }
+    die_with_parent(&mut cmd);
+    let mut child = cmd.spawn().map_err(|e| e.to_string())?;
     let start = Instant::now();
+    let mut so = child.stdout.take().unwrap();
+    let reader = std::thread::spawn(move || {
+        let mut s = String::new();
+        use std::io::Read;
+        so.read_to_string(&mut s).ok();
+        s
+    });
     let res = loop {
         match child.try_wait() {
             Ok(Some(_)) => {
-                let mut s = String::new();
-                use std::io::Read;
-                child.stdout.take().unwrap().read_to_string(&mut s).ok();
-                break serde_json::from_str::<RunReport>(s.trim()).map_err(|e| format!("bad exec output: {e}: {s}"));
+                let s = reader.join().unwrap_or_default();
+                break serde_json::from_str::<RunReport>(s.trim()).map_err(|e| format!("bad exec output: {e}: {}", s.chars().take(300).collect::<String>()));
             }
             Ok(None) => {
                 if start.elapsed() > timeout {
@@ -315,6 +359,9 @@ fn has_same(report: &RunReport, inv: &str, key: &str) -> Option<Violation> {
 }
 
 pub fn minimise(e: &dyn Engine, plan: Value, v: &Violation, tmpdir: &Path, budget: usize) -> (Value, Violation, usize) {
+    let hang = v.invariant == "T4";
+    let budget = if hang { budget.min(24) } else { budget };
+    let timeout = if hang { Duration::from_secs(6) } else { Duration::from_secs(30) };
     let mut cur = plan;
     let mut curv = v.clone();
     let mut execs = 0usize;
@@ -326,12 +373,21 @@ pub fn minimise(e: &dyn Engine, plan: Value, v: &Violation, tmpdir: &Path, budge
                 break;
             }
             execs += 1;
-            if let Ok(rep) = exec_fresh(e.id(), &cand, tmpdir, Duration::from_secs(30)) {
-                if let Some(nv) = has_same(&rep, &v.invariant, &v.key) {
-                    cur = cand;
-                    curv = nv;
-                    progress = true;
-                    break;
+            match exec_fresh(e.id(), &cand, tmpdir, timeout) {
+                Ok(rep) => {
+                    if let Some(nv) = has_same(&rep, &v.invariant, &v.key) {
+                        cur = cand;
+                        curv = nv;
+                        progress = true;
+                        break;
+                    }
+                }
+                Err(m) => {
+                    if hang && m == "timeout" {
+                        cur = cand;
+                        progress = true;
+                        break;
+                    }
                 }
             }
         }
@@ -399,13 +455,31 @@ pub fn check_main(e: &dyn Engine, tier: Tier, seed: u64, workers: usize, runs_ov
     let mut harness_errors: Vec<String> = Vec::new();
     let mut notes: BTreeMap<String, u64> = BTreeMap::new();
     let mut per_run_digests: Vec<(u64, u64)> = Vec::new();
+    let mut hangs_seen = 0usize;
     for (_i, cr) in results {
-        if let Some(run) = cr.hung_run {
+        for run in cr.hung_runs.iter().copied() {
+            hangs_seen += 1;
+            if hangs_seen > 2 {
+                // two confirmed hangs are enough; do not spend the watchdog again on each
+                *notes.entry("further watchdog hits not individually confirmed".to_string()).or_insert(0) += 1;
+                continue;
+            }
             // watchdog hit: confirm by replay in a fresh process before reporting
-            let plan = e.plan(seed, run, tier);
+            let mut plan = e.plan(seed, run, tier);
             let tmp = root.join("replays/tmp");
-            match exec_fresh(e.id(), &plan, &tmp, Duration::from_secs(30)) {
+            let prog = tmp.join(format!("progress-{}-{}.json", std::process::id(), run));
+            let _ = std::fs::remove_file(&prog);
+            match exec_fresh_p(e.id(), &plan, &tmp, e.run_timeout(), Some(&prog)) {
                 Err(ref m) if m == "timeout" => {
+                    // a multi-case run (sweep) leaves the sub-case it hung in
+                    if let Some(sub) = std::fs::read_to_string(&prog).ok().and_then(|s| serde_json::from_str::<Value>(&s).ok()) {
+                        if let Err(m2) = exec_fresh(e.id(), &sub, &tmp, Duration::from_secs(10)) {
+                            if m2 == "timeout" {
+                                plan = sub;
+                            }
+                        }
+                    }
+                    let _ = std::fs::remove_file(&prog);
                     found.push((
                         run,
                         Violation {
@@ -628,7 +702,7 @@ pub fn check_main(e: &dyn Engine, tier: Tier, seed: u64, workers: usize, runs_ov
         }
         return 2;
     }
-    if evaluations < total {
+    if evaluations < total && !ABORT.load(std::sync::atomic::Ordering::Relaxed) {
         eprintln!("HARNESS-ERROR: only {} of {} runs completed", evaluations, total);
         return 2;
     }
